@@ -323,6 +323,8 @@ def violations(sc, profile='debug', only=None, res=None, include_known=False):
         c2, f2, k2 = parse_build(res[1][1:])
         what = 'cells' if [c['raw'] for c in c2] != [c['raw'] for c in cells] else ('faces' if [x['raw'] for x in f2] != [x['raw'] for x in faces] else 'connectivity')
         add('C13', 'Voronoi::from(&VoronoiIntegrator) differs from the direct build (%s)' % what)
+        if mask is not None:
+            add('C07', 'VoronoiIntegrator::build(mask) -> Voronoi differs from Voronoi::build_partial with the same mask (%s): one of the two is not the restriction of the full tessellation' % what)
     # ---- C07: selected cells equal the full construction bitwise, unselected cells are zero
     if mask is not None and len(res) > 2 and res[2][0] == 'ok':
         cf, ff, kf = parse_build(res[2][1:])
